@@ -359,6 +359,7 @@ def modelStmt (ver : Version) (mn : MNum) (st : MSt) (s : Stmt) : String × MSt 
       | none => ("na", st)
     | some _ => ("?", unknownMemo st)
   | .str h | .exact h | .fmt h _ =>
+    if formatRuleUntranslated ver then ("?", unknownMemo st) else
     let numInfo : Option (VSpec × Int × Bool) := match (st.handles[h]? : Option MH) with
       | some (.h3 v) => if v.assertsNumber then (match v.exponent with | some e => some (v.spec, e, v.assertsFiniteNum) | none => none) else none
       | some (.h12 (.num sp e)) => some (sp, e, false)
@@ -451,6 +452,7 @@ def modelStmt (ver : Version) (mn : MNum) (st : MSt) (s : Stmt) : String × MSt 
           (showInts (avail ++ List.replicate (n.toNat - avail.length) (-1)),
             { st with finds := st.finds.set! it (h, pat, back, consumed + avail.length) })
   | .pr h pos o | .fpr h pos o _ _ =>
+    if printerUntranslated ver then ("?", unknownMemo st) else
     match buildPositions pos with
     | none => ("?", st)
     | some ranges =>
@@ -513,6 +515,7 @@ def modelStmt (ver : Version) (mn : MNum) (st : MSt) (s : Stmt) : String × MSt 
                 | _ => unknownMemo st)
            | .error p => (p.tag, unknownMemo st))
   | .wr h o | .fwr h o _ _ =>
+    if printerUntranslated ver then ("?", unknownMemo st) else
     match (st.handles[h]? : Option MH) with
     | some (.h3 v) =>
       if !v.assertsFiniteSeq then ("na", st)
